@@ -4,6 +4,7 @@ go 1.23
 
 require (
 	github.com/brutella/hc v0.0.0
+	github.com/tadglines/go-pkgs v0.0.0-20140924210655-1f86682992f1
 	golang.org/x/tools v0.29.0
 )
 
